@@ -723,6 +723,17 @@ fn populate(rt: &tokio::runtime::Runtime, qs: &QueryServer, data: &Data, rng: &m
     World { actors, targets: tl, names }
 }
 
+/// KV.C25.Model.LIMITED_ROLES: service desk, people on-boarding, group / service-account /
+/// oauth2-account admins
+const LIMITED_ROLES: [u64; 5] = [65, 69, 21, 70, 87];
+/// KV.C25.Model.limited_user: no high-privilege group other than HP itself and limited-remit roles
+fn limited_user(data: &Data, memberof: &[u64]) -> bool {
+    memberof.iter().all(|g| {
+        let hp_group = *g == G_HP || data.nesting.iter().any(|(k, _, m)| k == g && m.contains(&G_HP));
+        !hp_group || *g == G_HP || LIMITED_ROLES.contains(g)
+    })
+}
+
 // ------------------------------------------------------------------ entries, identities, requests
 type MEntry = BTreeMap<u64, BTreeSet<u64>>;
 /// the part of a stored entry the model looks at: the attributes of the tables
@@ -896,7 +907,7 @@ fn main() {
     }
     let mut rng = Rng::new(args.seed);
     let mut sink = Sink::new(&args, "KV.C25.Model", if args.thorough { 450 } else { 170 });
-    sink.rule = "data = the write profiles and group nesting dumped from this run's freshly initialised server (compared inside Coq with the generated KV.C25.Builtin the theorems are about). allow / del / srv = acting persons (one per built-in role group, per custom group [plain, member of idm_high_privilege, nested in idm_people_admins], one without groups, and random 2-4 group subsets, half of them drawn from the non-high-privilege groups only) x targets (persons, service accounts, groups; plain, high-privilege directly / through idm_admins, system_admins, idm_service_desk, idm_group_admins / through a custom group; without manager, managed by a high-privilege group or person, managed by a plain group or person; the built-in admin, idm_admin, anonymous accounts and six built-in groups; four of the actors themselves): verdict of the server's live modify_allow_operation for Present / Purged (thorough: also Removed) of 30 credential-, session-, detail- and membership-bearing attributes, class additions / removals and two-grant requests; of delete_allow_operation; and outcome + target-unchanged of real modify operations as the acting user in a discarded write transaction. non-trivial = the acting user is not in idm_high_privilege, the target is, is another entry and is not managed by the user".into();
+    sink.rule = "data = the write profiles and group nesting dumped from this run's freshly initialised server (compared inside Coq with the generated KV.C25.Builtin the theorems are about). allow / del / srv = acting persons (one per built-in role group, per custom group [plain, member of idm_high_privilege, nested in idm_people_admins], one without groups, and random 2-4 group subsets, half of them drawn from the non-high-privilege groups only) x targets (persons, service accounts, groups; plain, high-privilege directly / through idm_admins, system_admins, idm_service_desk, idm_group_admins / through a custom group; without manager, managed by a high-privilege group or person, managed by a plain group or person; the built-in admin, idm_admin, anonymous accounts and six built-in groups; four of the actors themselves): verdict of the server's live modify_allow_operation for Present / Purged (thorough: also Removed) of 30 credential-, session-, detail- and membership-bearing attributes, class additions / removals and two-grant requests; of delete_allow_operation; and outcome + target-unchanged of real modify operations as the acting user in a discarded write transaction. non-trivial = the acting user is not in idm_high_privilege (or holds only limited-remit high-privilege roles: service desk, on-boarding, group / service-account / oauth2-account admins), the target is in idm_high_privilege, is another entry and is not managed by the user".into();
 
     // ---------------- the data of this run
     let same = std::fs::read_to_string(BUILTIN_V).map(|old| old == text).unwrap_or(false);
@@ -965,7 +976,8 @@ fn main() {
                 let target_hp = set_of(&tm, A_MEMBEROF).contains(&G_HP);
                 let mgrs = set_of(&tm, A_EMB);
                 let is_mgr = mgrs.iter().any(|m| *m == a.uuid || memberof.contains(m));
-                let subject = !actor_hp && target_hp && *tu != a.uuid && !is_mgr;
+                let limited = limited_user(&data, &memberof);
+                let subject = (!actor_hp || limited) && target_hp && *tu != a.uuid && !is_mgr;
                 let tf = schema_filter(&rd, *tu);
                 let mut allowed_idx: Vec<u64> = Vec::new();
                 let mut allowed: Vec<String> = Vec::new();
@@ -1012,7 +1024,7 @@ fn main() {
                 sink.bump(match (actor_hp, target_hp) {
                     (false, true) => if subject { "pair_lowactor_hptarget_subject" } else { "pair_lowactor_hptarget_manager_or_self" },
                     (false, false) => "pair_lowactor_lowtarget",
-                    (true, true) => "pair_hpactor_hptarget",
+                    (true, true) => if subject { "pair_limitedroleactor_hptarget_subject" } else { "pair_hpactor_hptarget" },
                     (true, false) => "pair_hpactor_lowtarget",
                 });
                 sink.case(
@@ -1081,7 +1093,7 @@ fn main() {
         let target_hp = set_of(&tm, A_MEMBEROF).contains(&G_HP);
         let mgrs = set_of(&tm, A_EMB);
         let is_mgr = mgrs.iter().any(|m| *m == a.uuid || memberof.contains(m));
-        let subject = !actor_hp && target_hp && tu != a.uuid && !is_mgr;
+        let subject = (!actor_hp || limited_user(&data, &memberof)) && target_hp && tu != a.uuid && !is_mgr;
         let rs = match res {
             SRes::Ok => "SOk",
             SRes::Denied => "SDenied",
